@@ -428,6 +428,23 @@ impl TransactionWorkspace {
         Ok(())
     }
 
+    /// Mark this transaction as rolled back without touching the store.
+    ///
+    /// # Errors
+    ///
+    /// Returns an error if the transaction is already committed.
+    pub fn abandon(&self) -> Result<()> {
+        let mut state = self.state.write();
+        if *state == TransactionState::Committed {
+            return Err(ChainError::TransactionFailed(
+                "cannot rollback committed transaction".to_string(),
+            ));
+        }
+        *state = TransactionState::RolledBack;
+        drop(state);
+        Ok(())
+    }
+
     pub fn checkpoint_bytes(&self) -> &[u8] {
         &self.checkpoint_bytes
     }
